@@ -340,6 +340,15 @@ def json_framing(ctx):
             if not str(r2['result']).startswith('err'): bad_w = (kind, r2['result']); break
         c.replay = {'argv': ['--style', 'consise', '--row-seperator', '|'], 'stdin': '1 [2] "x"', 'expected': '1|[2]|"x"|', 'actual': show(r['stdout']), 'write_failure_not_reported': bad_w}
         c.status = 'reproduced' if r['stdout'] != b'1|[2]|"x"|' or bad_w else 'unit'
+        if c.status != 'reproduced':
+            # a writer that takes one byte per call (short writes are legal for io::Write::write) and a run that must stream: rows are out
+            # before a later fatal point
+            r3 = run_driver(ctx, ['--style', 'consise', '--row-seperator', '|'], b'1 [2] "x"', env={'WRITE_CHUNK': '1'})
+            r4 = run_driver(ctx, ['--style', 'consise', '--on-error', 'panic'], b'{"a":1} [2] x 3')
+            if r3['stdout'] != b'1|[2]|"x"|' or r3['result'] != 'ok':
+                c.status = 'reproduced'; c.unmodelled = None; c.replay = {'writer': 'accepts one byte per write call', 'expected': '1|[2]|"x"|', 'actual': show(r3['stdout']), 'result': r3['result']}
+            elif r4['stdout'] != b'{"a":1}\n[2]\n' or not str(r4['result']).startswith('err'):
+                c.status = 'reproduced'; c.unmodelled = None; c.replay = {'argv': ['--on-error', 'panic'], 'stdin': '{"a":1} [2] x 3', 'expected_stdout': '{"a":1}\n[2]\n', 'actual': show(r4['stdout']), 'result': r4['result']}
 
 
 # ---------------------------------------------------------------- structure x style
